@@ -26,6 +26,7 @@ THEOREMS = [
     'CpProofs.C08.C08_deeper_wins',
     'CpProofs.C08.C08_section_over_cpconfig_same_level',
     'CpProofs.C08.C08_scoped',
+    'CpProofs.C08.C08_scoped_general',
     'CpProofs.C08.C08_find_config',
     'CpProofs.C08.C08_tools',
     'CpProofs.C08.C08_tool_args',
@@ -41,7 +42,8 @@ LEVEL_TEXT = ('Proved in Lean for every object graph without _cp_dispatch, every
               'request.config = global, then per level of segments ++ [index] the _cp_config of the object found there and the '
               'section named by that path prefix, the default handler\'s _cp_config right after its owner; hence deeper wins, '
               'section beats _cp_config at the same level, and a section whose name is not a path prefix of the request can be '
-              'removed without effect (string-prefix siblings included). find_config returns the value of the longest prefix '
+              'removed without effect (string-prefix siblings included; this scoping theorem is also proved for all graphs, '
+              'dispatchers included). find_config returns the value of the longest prefix '
               'section holding the key. A tool is set up iff the effective tools.<t>.on is truthy, with exactly the effective '
               'tools.<t>.* entries minus on/priority. unrepr(repr(v)) = v for all literal values built from None/bool/int/float/'
               'complex/str/bytes/list/tuple/dict/dotted names whenever the generated builder table has the node classes needed '
